@@ -17,13 +17,58 @@ let () =
      with _ -> ())
   end
 
+(* the 256 byte values as shared Z values (the large cases have hundreds of thousands of bytes) *)
+let zbyte = Array.init 256 z_of_int
 let split_text (s : sx) : z list * z list =
+  let zb y = let v = int_of_sx y in if v >= 0 && v < 256 then zbyte.(v) else z_of_int v in
   let rec go acc = function
     | [] -> (List.rev acc, [])
     | x :: r -> let v = int_of_sx x in
-        if v >= 256 || v < 0 then (List.rev acc, List.map (fun y -> z_of_int (int_of_sx y)) r)
-        else go (z_of_int v :: acc) r in
+        if v >= 256 || v < 0 then (List.rev acc, List.rev (List.rev_map zb r))
+        else go (zbyte.(v) :: acc) r in
   go [] (args s)
+
+(* a line as an OCaml string (keys of the hash table below, printing) *)
+let string_of_line (l : z list) : string =
+  let b = Buffer.create 8 in List.iter (fun x -> Buffer.add_char b (Char.chr (int_of_z x land 255))) l; Buffer.contents b
+
+(* The identifiers DiffLinesToRunes hands out (first appearance, old blob first, from 1), computed with a hash
+   table: the extracted diff_lines_to_runes walks an association list and is quadratic.  Checked against it on
+   every small case (field ids). *)
+let dense_ids (la : z list list) (lb : z list list) : int list * int list =
+  let h : (string, int) Hashtbl.t = Hashtbl.create 1024 in
+  let id l = let k = string_of_line l in
+    match Hashtbl.find_opt h k with
+    | Some i -> i
+    | None -> let i = Hashtbl.length h + 1 in Hashtbl.add h k i; i in
+  let ia = List.rev (List.rev_map id la) in
+  let ib = List.rev (List.rev_map id lb) in
+  (ia, ib)
+
+let shifted (i : int) : int = int_of_z (shift_id (z_of_int i))
+
+let show_line (l : z list) : string =
+  let s = string_of_line l in
+  let s = if String.length s > 24 then String.sub s 0 24 ^ "..." else s in
+  "\"" ^ String.escaped s ^ "\""
+
+(* for the message only: the first equal run that covers two different lines, as (run index, old line number,
+   new line number), lines numbered from 1; same is the line equality of the property (up to spaces when
+   WhitespaceIgnore is on) *)
+let first_bad_equal (same : z list -> z list -> bool) (ula : z list list) (ulb : z list list) (ds : (string * int) list) =
+  let a = Array.of_list ula and b = Array.of_list ulb in
+  let rec go k i j = function
+    | [] -> None
+    | ("e", n) :: r ->
+        let rec scan t = if t >= n then None
+          else if i + t < Array.length a && j + t < Array.length b && not (same a.(i + t) b.(j + t)) then Some (k, i + t, j + t)
+          else scan (t + 1) in
+        (match scan 0 with Some x -> Some x | None -> go (k + 1) (i + n) (j + n) r)
+    | ("d", n) :: r -> go (k + 1) (i + n) j r
+    | (_, n) :: r -> go (k + 1) i (j + n) r in
+  match go 0 0 0 ds with
+  | None -> ""
+  | Some (k, i, j) -> Printf.sprintf " (run %d: old line %d %s / new line %d %s)" k (i + 1) (show_line a.(i)) (j + 1) (show_line b.(j))
 
 let op_of = function "e" -> Equal | "d" -> Delete | "i" -> Insert | t -> failwith ("unknown diff operation " ^ t)
 
@@ -71,12 +116,32 @@ let () =
     let nla = List.length la and nlb = List.length lb in
     if gold <> nla then mismatch id (Printf.sprintf "OldLinesOfCode impl=%d model=%d" gold nla);
     if gnew <> nlb then mismatch id (Printf.sprintf "NewLinesOfCode impl=%d model=%d" gnew nlb);
+    let (da, db) = dense_ids la lb in
     (match field_opt "ids" obs with
      | Some s ->
          let (ia, ib) = diff_lines_to_runes sa sb in
          let gi k = ints_of_sx (List.nth (args s) k) in
          if gi 0 <> List.map int_of_nat ia || gi 1 <> List.map int_of_nat ib then mismatch id "line ids of DiffLinesToRunes differ from diff_lines_to_runes";
+         if da <> List.map int_of_nat ia || db <> List.map int_of_nat ib then failwith "driver: dense_ids differs from the extracted diff_lines_to_runes";
          count "ids_compared"
+     | None -> ());
+    (* the identifiers FileDiff.Consume handed to the diff engine, read back from the texts of the runs (equal and
+       deleted runs spell the old sequence, equal and inserted runs the new one), against shift_id of the identifiers
+       of the model: C11_shift_id is about shift_id, this ties the loop in Consume to it *)
+    (match field_opt "rt" obs with
+     | Some s ->
+         let runs = List.map (fun r -> (tag r, ints_of_sx (List.hd (args r)))) (args s) in
+         let side keep = List.concat (List.map (fun (o, l) -> if o = "e" || o = keep then l else []) runs) in
+         let cmp what got dense =
+           let rec go k g w = match g, w with
+             | [], [] -> ()
+             | x :: g', d :: w' -> if x = shifted d then go (k + 1) g' w' else
+                 mismatch id (Printf.sprintf "identifier handed to the diff engine for %s line %d: impl=0x%X model shift_id(0x%X)=0x%X" what (k + 1) x d (shifted d))
+             | _ -> mismatch id (Printf.sprintf "the runs of the diff spell %d identifiers for the %d %s lines" (List.length got) (List.length dense) what) in
+           go 0 got dense in
+         cmp "old" (side "d") da;
+         cmp "new" (side "i") db;
+         if List.exists (fun i -> i >= 55296) da || List.exists (fun i -> i >= 55296) db then count "shifted_ids_compared"
      | None -> ());
     let st = line_stats ds in
     (match args (field "stats" obs) with
@@ -108,7 +173,9 @@ let () =
                  (int_of_nat (old_total ds)) nua (int_of_nat (new_total ds)) nub)
         else if canonical ds then
           (* canonical + totals fine + validator says no = an equal run over different lines (C11_script_ok_iff) *)
-          add "an equal run covers lines that differ between the two versions"
+          add ("an equal run covers lines that differ between the two versions"
+               ^ (let unsp l = if ws then List.filter (fun x -> int_of_z x <> 32) l else l in
+                  first_bad_equal (fun x y -> unsp x = unsp y) ula ulb ds_i))
       end;
       if List.exists (fun (_, n) -> n = 0) ds_i then count "scripts_with_empty_runs";
       let cnt_bad = gcla <> string_of_int gold || gclb <> string_of_int gnew in
